@@ -42,10 +42,22 @@ macro_rules! ensure {
 #[allow(unused_imports)]
 pub(crate) use {ensure, viol};
 
+thread_local! {
+    /// true only while a guarded call into the arena is running: crash points and step budgets are
+    /// counted there, not during the harness's own observation calls
+    pub static IN_API: Cell<bool> = const { Cell::new(false) };
+}
+
 pub fn guard<T>(what: &str, owner: &'static str, f: impl FnOnce() -> T) -> R<T> {
-    match catch_unwind(AssertUnwindSafe(f)) {
+    let prev = IN_API.with(|c| c.replace(true));
+    let r = catch_unwind(AssertUnwindSafe(f));
+    IN_API.with(|c| c.set(prev));
+    match r {
         Ok(v) => Ok(v),
         Err(p) => {
+            if p.is::<BudgetExceeded>() {
+                return Err(viol!("C07", format!("non-termination/{what}"), "{what} did not finish within the step budget"));
+            }
             let m = if let Some(s) = p.downcast_ref::<&str>() {
                 s.to_string()
             } else if let Some(s) = p.downcast_ref::<String>() {
@@ -113,6 +125,42 @@ pub struct Mode {
     pub dirty: bool,
     /// record a hash of memory() in every observation
     pub memhash: bool,
+    /// C06: record a snapshot of memory() at every atomic step (crash points)
+    pub crash: bool,
+    /// post-crash world: only C01-type predicates and termination are judged
+    pub lenient: bool,
+    /// abort an operation (by unwinding out of the hook) after this many consecutive accesses that wrote nothing
+    pub budget: Option<u32>,
+}
+
+/// panic payload used to abandon an operation that exceeded its step budget
+pub struct BudgetExceeded;
+
+#[derive(Clone, Debug)]
+pub struct LiveRec {
+    pub id: u32,
+    pub off: usize,
+    pub cap: usize,
+    pub expect: Vec<u8>,
+}
+
+#[derive(Clone, Debug)]
+pub struct CrashSnap {
+    pub op: usize,
+    /// 1-based index of the atomic step the crash happens before; u32::MAX = after the operation
+    pub step: u32,
+    pub what: String,
+    pub bytes: Vec<u8>,
+}
+
+pub struct CrashShared {
+    pub ptr: Cell<*const u8>,
+    pub cap: Cell<usize>,
+    pub cur_op: Cell<usize>,
+    pub step: Cell<u32>,
+    pub enabled: Cell<bool>,
+    pub snaps: std::cell::RefCell<Vec<CrashSnap>>,
+    pub budget_used: Cell<u32>,
 }
 
 pub struct World<A: Flavor> {
@@ -139,6 +187,9 @@ pub struct World<A: Flavor> {
     pub page: usize,
     /// bytes that some owner has ever set non-zero (C08 non-triviality), by offset
     pub dirtied: Vec<bool>,
+    pub crash: Option<Rc<CrashShared>>,
+    /// per executed op: live set before and after (C06)
+    pub live_log: Vec<(Vec<LiveRec>, Vec<LiveRec>, String)>,
 }
 
 pub fn base_opts(cfg: &Cfg) -> Options {
@@ -284,8 +335,51 @@ impl<A: Flavor> World<A> {
             opno: 0,
             page,
             dirtied: vec![false; capacity],
+            crash: None,
+            live_log: Vec::new(),
         };
+        let mut w = w;
+        w.install_hooks();
         Ok(Some(w))
+    }
+
+    /// Wraps an already opened arena (C06 recovery): the given ranges are handed-out, persistent ranges.
+    pub fn adopt(cfg: &Cfg, mode: Mode, arena: A, path: Option<PathBuf>, live: &[LiveRec]) -> Self {
+        let capacity = arena.capacity();
+        let allocated = arena.allocated();
+        let reserved_expect = arena.reserved_slice().to_vec();
+        let hs = live
+            .iter()
+            .map(|l| H { obj: None, kind: HKind::Bytes, ty: 0, off: l.off, cap: l.cap, boff: l.off, bcap: l.cap, expect: l.expect.clone(), embeds: 0, via: 0, detached: true, drop_id: None, id: l.id })
+            .collect();
+        let mut w = World {
+            cfg: cfg.clone(),
+            mode,
+            opts: base_opts(cfg),
+            arenas: vec![Some(Box::new(arena))],
+            hs,
+            next_id: 1_000_000,
+            high_water: allocated.max(capacity),
+            dead: Vec::new(),
+            reserved_expect,
+            ro: false,
+            cow: None,
+            path,
+            truncated: false,
+            classes: BTreeSet::new(),
+            trace: Vec::new(),
+            unmounts: Rc::new(Cell::new(0)),
+            expected_unmounts: 0,
+            inc_total: 0,
+            freelist: cfg.freelist,
+            opno: 0,
+            page: page_size(),
+            dirtied: vec![false; capacity],
+            crash: None,
+            live_log: Vec::new(),
+        };
+        w.install_hooks();
+        w
     }
 
     pub fn aref(&self, ix: usize) -> &'static A {
@@ -403,7 +497,9 @@ impl<A: Flavor> World<A> {
             );
         }
         // C10: well-formed free list
-        self.check_freelist(post, &rs)?;
+        if !self.mode.lenient {
+            self.check_freelist(post, &rs)?;
+        }
         Ok(())
     }
 
@@ -453,7 +549,88 @@ impl<A: Flavor> World<A> {
 
     // ---------------------------------------------------------------- steps
 
+    fn live_recs(&self) -> Vec<LiveRec> {
+        self.hs.iter().filter(|h| h.cap > 0).map(|h| LiveRec { id: h.id, off: h.off, cap: h.cap, expect: h.expect.clone() }).collect()
+    }
+
+    /// (Re)installs the thread hook this world needs: crash-point recorder, step budget, unmount counter.
+    pub fn install_hooks(&mut self) {
+        if !(self.mode.crash || self.mode.budget.is_some()) {
+            return;
+        }
+        let a = self.a();
+        let sh = match &self.crash {
+            Some(s) => s.clone(),
+            None => {
+                let s = Rc::new(CrashShared { ptr: Cell::new(a.raw_ptr()), cap: Cell::new(a.capacity()), cur_op: Cell::new(0), step: Cell::new(0), enabled: Cell::new(false), snaps: Default::default(), budget_used: Cell::new(0) });
+                self.crash = Some(s.clone());
+                s
+            }
+        };
+        sh.ptr.set(a.raw_ptr());
+        sh.cap.set(a.capacity());
+        let record = self.mode.crash;
+        let budget = self.mode.budget;
+        let unmounts = self.unmounts.clone();
+        verif::set_hook(Some(Box::new(move |e| {
+            if e.kind == verif::Kind::Unmount {
+                unmounts.set(unmounts.get() + 1);
+                return verif::Action::Proceed;
+            }
+            if !sh.enabled.get() || !IN_API.with(|c| c.get()) {
+                return verif::Action::Proceed;
+            }
+            if !e.before {
+                // the budget counts consecutive accesses that change nothing: a single thread that keeps
+                // re-reading unchanged words is in a loop it can never leave
+                if e.wrote && e.old != e.new {
+                    sh.budget_used.set(0);
+                }
+                return verif::Action::Proceed;
+            }
+            if let Some(b) = budget {
+                let u = sh.budget_used.get() + 1;
+                sh.budget_used.set(u);
+                if u > b {
+                    sh.enabled.set(false);
+                    std::panic::resume_unwind(Box::new(BudgetExceeded));
+                }
+            }
+            if record {
+                let st = sh.step.get() + 1;
+                sh.step.set(st);
+                let bytes = unsafe { std::slice::from_raw_parts(sh.ptr.get(), sh.cap.get()) }.to_vec();
+                sh.snaps.borrow_mut().push(CrashSnap { op: sh.cur_op.get(), step: st, what: format!("{:?}", e.kind), bytes });
+            }
+            verif::Action::Proceed
+        })));
+    }
+
     pub fn step(&mut self, ix: usize, op: &Op) -> R {
+        if let Some(sh) = self.crash.clone() {
+            sh.cur_op.set(ix);
+            sh.step.set(0);
+            sh.budget_used.set(0);
+            let before = self.live_recs();
+            sh.enabled.set(true);
+            let r = self.step_inner(ix, op);
+            sh.enabled.set(false);
+            r?;
+            if self.mode.crash {
+                let after = self.live_recs();
+                self.live_log.push((before, after, format!("{op:?}")));
+                let a = self.a();
+                sh.ptr.set(a.raw_ptr());
+                sh.cap.set(a.capacity());
+                let bytes = self.mem().to_vec();
+                sh.snaps.borrow_mut().push(CrashSnap { op: ix, step: u32::MAX, what: "end-of-op".into(), bytes });
+            }
+            return Ok(());
+        }
+        self.step_inner(ix, op)
+    }
+
+    fn step_inner(&mut self, ix: usize, op: &Op) -> R {
         self.opno = ix;
         let mut res = String::from("skip");
         let mut range = None;
@@ -704,7 +881,7 @@ impl<A: Flavor> World<A> {
                     if self.truncated {
                         ensure!(!fresh_fits, "C18", "fits-but-refused", "after truncate: {what}({n}) fits fresh space (allocated {} capacity {}) but failed: {e:?}", pre.allocated, pre.capacity);
                     }
-                    if !fresh_fits {
+                    if !fresh_fits && !self.mode.lenient {
                         self.policy_on_err(&pre, need_min, need_max, what, n, &e)?;
                     }
                 }
@@ -803,7 +980,7 @@ impl<A: Flavor> World<A> {
                 }
                 // C08: zero-filled
                 let mem = self.mem();
-                if kind == HKind::Bytes {
+                if kind == HKind::Bytes && !self.mode.lenient {
                     let bytes = &mem[off..off + cap];
                     if let Some(p) = bytes.iter().position(|b| *b != 0) {
                         return Err(viol!("C08", "not-zeroed", "alloc_bytes({n}) at [{off}, {}) byte +{p} = {:#x} (recycled={recycled})", off + cap, bytes[p]));
@@ -813,14 +990,14 @@ impl<A: Flavor> World<A> {
                     }
                 }
                 // C10 policy
-                if self.freelist == 0 {
+                if self.freelist == 0 && !self.mode.lenient {
                     ensure!(
                         boff as u64 == pre.allocated as u64 && off as u64 == fresh_start && !recycled,
                         "C10", "none-reused",
                         "Freelist::None: {what}({n}) served at buffer_offset {boff} / offset {off}, cursor was {}", pre.allocated
                     );
                 }
-                if !fresh_fits {
+                if !fresh_fits && !self.mode.lenient {
                     self.policy_on_ok(&pre, &post, need_min, need_max, what, n, boff, off + cap)?;
                 } else if !recycled {
                     self.classes.insert("fresh");
@@ -931,6 +1108,9 @@ impl<A: Flavor> World<A> {
 
     /// Effect of releasing `[boff, boff+bcap)` exactly once (C13 a / C20).
     fn check_release_effect(&mut self, pre: &Snap, post: &Snap, boff: usize, bcap: usize, what: &str) -> R {
+        if self.mode.lenient {
+            return Ok(());
+        }
         let key = |v: &[(u32, u32, u32)]| -> Vec<(u32, u32)> {
             let mut k: Vec<(u32, u32)> = v.iter().map(|x| (x.0, x.1)).collect();
             k.sort();
@@ -1076,6 +1256,9 @@ impl<A: Flavor> World<A> {
             return Ok("readonly".into());
         }
         let sum: u64 = pre.fl.iter().map(|n| n.1 as u64).sum();
+        if self.mode.lenient {
+            return Ok(res_kind(&r).into());
+        }
         match r {
             Ok(v) => {
                 ensure!(v as u64 == sum, "C20", "discard-return", "discard_freelist() returned {v}, list held {sum} bytes: {:?}", pre.fl);
@@ -1447,7 +1630,7 @@ impl<A: Flavor> World<A> {
             guard("Arena::drop", "C13", move || drop(b))?;
             self.check_unmounts("dropping an arena value at teardown")?;
         }
-        if self.mode.count_unmount {
+        if self.mode.count_unmount || self.crash.is_some() {
             verif::set_hook(None);
         }
         if let Some(p) = &self.path {
@@ -1458,7 +1641,7 @@ impl<A: Flavor> World<A> {
 
     /// Abandon the case without running any arena code again.
     pub fn leak(self) {
-        if self.mode.count_unmount {
+        if self.mode.count_unmount || self.crash.is_some() {
             verif::set_hook(None);
         }
         if let Some(p) = &self.path {
